@@ -174,15 +174,10 @@ class Ranges:
             return self.full(t)
         if k == "unop":
             if t[1] == "Not":
-                x = t[2]
-                # !(MAX << n)  =  mask of the n low bits
-                if x[0] == "binop" and x[1] == "Shl":
-                    base = self.rng(x[2])
-                    w = self.width(x[2])
-                    kk = num.aff(x[3])
-                    if base is not None and w is not None and kk is not None and base[0].is_const() and base[0].k == 0 and base[1].is_const() and base[1].k == w \
-                            and x[2][0] == "uneval" and x[2][1].endswith("::MAX"):
-                        return (const(0), kk)
+                # !(MAX << a << b ..)  =  mask of the a + b + .. low bits
+                L = self.ones_from(t[2])
+                if L is not None:
+                    return (const(0), L)
                 return self.full(t)
             return self.full(t)
         if k == "wordop":
@@ -235,6 +230,30 @@ class Ranges:
         if k in ("lin", "havoc", "arg", "ret", "deref", "local", "index"):
             return self.full(t)
         return self.full(t)
+
+    def ones_from(self, t, depth=0):
+        """affine L such that exactly the bits L..width of t are set (all-ones shifted left), or None"""
+        if not isinstance(t, tuple) or not t or depth > 8:
+            return None
+        w = self.width(t)
+        if w is None:
+            return None
+        if t[0] == "uneval" and t[1].endswith("::MAX"):
+            return const(0)
+        if t[0] == "const" and isinstance(t[1], int) and not isinstance(t[1], bool) and t[1] == (1 << w) - 1:
+            return const(0)
+        if t[0] == "binop" and t[1] in ("Shl", "ShlUnchecked"):
+            L = self.ones_from(t[2], depth + 1)
+            kk = self.aff_exact(t[3])
+            if L is not None and kk is not None and self.ent_le(const(0), kk):
+                return L + kk
+        if t[0] == "ret" and t[2] == "std::ops::Shl::shl":
+            for e in getattr(self.num, "ctx_events", []):
+                if e[0] == "call" and e[3] == t:
+                    args = e[8] if len(e) > 8 and e[8] else e[2]
+                    if len(args) == 2:
+                        return self.ones_from(("binop", "Shl", args[0], args[1]), depth + 1)
+        return None
 
     def ilog2_of(self, t):
         """affine form of ilog2(t) when the path computed it"""
